@@ -213,7 +213,16 @@ def build_config(spec, workdir):
         di = inner.pop("dump_interval")
         return add_dumping(build_config(inner, workdir), di, workdir)
     if spec["kind"] == "shipped":
-        return shipped(spec["name"], workdir, spec.get("end"), spec.get("overrides"))
+        cfg = shipped(spec["name"], workdir, spec.get("end"), spec.get("overrides"))
+        if spec.get("multi_process_cores"):
+            items = dict(cfg.items("SingleProcessMediator"))
+            cfg.remove_section("SingleProcessMediator")
+            cfg.set("Run", "mediator", "multi_process_mediator")
+            cfg.add_section("MultiProcessMediator")
+            for k, v in items.items():
+                cfg.set("MultiProcessMediator", k, v)
+            cfg.set("MultiProcessMediator", "number_cores", str(spec["multi_process_cores"]))
+        return cfg
     if spec["kind"] == "spheres":
         cfg = gen_spheres(spec["params"], workdir)
         for sec, opts in (spec.get("overrides") or {}).items():
@@ -223,7 +232,16 @@ def build_config(spec, workdir):
                 cfg.set(sec, k, str(v))
         return cfg
     if spec["kind"] == "molecules":
-        return gen_molecules(spec["params"], workdir)
+        cfg = gen_molecules(spec["params"], workdir)
+        if spec.get("multi_process_cores_generated"):
+            items = dict(cfg.items("SingleProcessMediator"))
+            cfg.remove_section("SingleProcessMediator")
+            cfg.set("Run", "mediator", "multi_process_mediator")
+            cfg.add_section("MultiProcessMediator")
+            for k, v in items.items():
+                cfg.set("MultiProcessMediator", k, v)
+            cfg.set("MultiProcessMediator", "number_cores", str(spec["multi_process_cores_generated"]))
+        return cfg
     raise ValueError(spec["kind"])
 
 
